@@ -46,6 +46,8 @@ type RunConfig struct {
 	Seed       int64
 	Trace      bool
 	ExpectPanic bool
+	Sched     bool     // explore goroutine schedules (sched.go)
+	SchedPkgs []string // packages whose mutex/atomic operations are schedule points
 }
 
 func (c *RunConfig) stubFor(name string) (string, bool) {
@@ -594,6 +596,10 @@ func (e *explorer) runPath(in *Interp, solver *Solver, item workItem) {
 	in.mutexes = map[*Value]int{}
 	in.syncMaps = nil
 	in.fs = nil
+	in.sched = nil
+	if e.cfg.Sched {
+		in.sched = newScheduler(in)
+	}
 	ex.setModel(item.model)
 	status, msg := "ok", ""
 	func() {
@@ -620,6 +626,10 @@ func (e *explorer) runPath(in *Interp, solver *Solver, item workItem) {
 		in.callSSA(nil, e.fn, nil, nil)
 		in.runPending()
 	}()
+	if in.sched != nil {
+		in.sched.killAll()
+		in.sched = nil
+	}
 	if status == "panicked" {
 		if e.cfg.ExpectPanic {
 			status = "ok"
